@@ -265,6 +265,21 @@ def compact (cTest : Which) (e : ClassInfo) (r : Req) (o : Obj) : Except Compact
           | .ok res => .ok (.block res)
       else .ok .plain
 
+/-! ## Expansion on a register
+
+`Gate.get_qobj(dims=[2]*N)` (regenerated rule `Gen.G.gateGetQobj`; `propagators(expand=True)` does the same with
+`gate.get_all_qubits()`):  `expand_operator(self.get_compact_qobj(), dims, targets = self.controls + self.targets)` — the
+controls in the order the OBJECT stores them, which is the order they were listed in (`construct`).  Unlike the function
+`controlled_gate` there is no shortcut for `controls + targets == range(N)`. -/
+def expanded (N : Nat) (o : Obj) (res : Res) : Except QipVerif.Embed.Err Res :=
+  match QipVerif.Embed.validate (List.replicate N 2) ((o.controls.getD []) ++ (o.targets.getD []))
+      (List.replicate res.K 2) with
+  | .error e => .error e
+  | .ok qs => .ok ⟨N, fun x y =>
+      match QipVerif.Embed.expandEntry N qs x y with
+      | Option.none => .zero
+      | some (a, c) => res.entry a c⟩
+
 /-! ## The circuit path on a circuit of several gates
 
 `QubitCircuit.propagators(expand=False)` is `[self._get_gate_unitary(g) for g in self.gates]`; for a library gate
